@@ -39,8 +39,11 @@ def one(name):
 
 names = sorted(n for n in os.listdir(os.path.join(ROOT, "seeded")) if os.path.isdir(os.path.join(ROOT, "seeded", n)))
 ONLY = sys.argv[sys.argv.index("--only") + 1].split(",") if "--only" in sys.argv else None  # e.g. --only m22,m23,m24: re-run these, keep the other rows
+PROPS = sys.argv[sys.argv.index("--props") + 1].split(",") if "--props" in sys.argv else None  # e.g. --props C06,C10: re-run these rows only
 if ONLY:
     names = [n for n in names if n.split("-")[-1] in ONLY]
+if PROPS:
+    names = [n for n in names if n.split("-")[0] in PROPS]
 rows = []
 with cf.ThreadPoolExecutor(J) as ex:
     for row in ex.map(one, names):
@@ -48,7 +51,7 @@ with cf.ThreadPoolExecutor(J) as ex:
         print(*row[:3], flush=True)
 out = ["| seeded change | property | caught by quick check | stream | first message |", "|---|---|---|---|---|"]
 new = {n: f"| {n} | {p} | {c} | {s} | {m} |" for n, p, c, s, m in rows}
-if ONLY and os.path.exists(os.path.join(ROOT, "seeded", "CATCH_MATRIX.md")):
+if (ONLY or PROPS) and os.path.exists(os.path.join(ROOT, "seeded", "CATCH_MATRIX.md")):
     old = {l.split("|")[1].strip(): l.rstrip("\n") for l in open(os.path.join(ROOT, "seeded", "CATCH_MATRIX.md")) if l.startswith("| C")}
     old.update(new)
     new = old
